@@ -3,7 +3,9 @@ package main
 
 import (
 	"fmt"
+	"regexp"
 	"sort"
+	"strconv"
 	"strings"
 
 	"verifh/vh"
@@ -15,22 +17,23 @@ import (
 // literal that stores the operands into globals), TStmt (Interp.Compile, run with RunExpr per row) and TGet
 // (function literal returning the canonical string); the oracle compiles Src = the three glued into one literal.
 type Fn struct {
-	ID      int
-	Mode    string
-	Src     string
-	Params  []*Kind
-	Rows    [][]Val
-	TSet    string
-	TStmt   string
-	TGet    string
-	Op      string // "=", "+=", ..., "<<=", "++", "--", "multi", "seq"
-	K       *Kind  // kind of the target place (nil for multi / seq)
-	KV      *Kind  // kind of the right operand (shift count kind for shifts)
-	Place   string
-	Rhs     string // "V" variable, "G" logged function call, "C" constant
-	CText   string // constant text
-	Class   string // "" or the key of a recorded finding class
-	Coq     *coqInfo
+	ID       int
+	Mode     string
+	Src      string
+	Params   []*Kind
+	Rows     [][]Val
+	TSet     string
+	TStmt    string
+	TGet     string
+	Op       string // "=", "+=", ..., "<<=", "++", "--", "multi", "seq"
+	K        *Kind  // kind of the target place (nil for multi / seq)
+	KV       *Kind  // kind of the right operand (shift count kind for shifts)
+	Place    string
+	Rhs      string // "V" variable, "G" logged function call, "C" constant
+	CText    string // constant text
+	Class    string // "" or the key of a recorded finding class
+	Coq      *coqInfo
+	seqClass string
 	// results
 	ExpectCE bool
 	CEMsg    string
@@ -541,8 +544,53 @@ func (g *Gen) enumerate() {
 	g.sequences()
 }
 
-// findingClass: syntactic classes of inputs with a recorded genuine defect; their failures share one key.
+// findingClass: syntactic classes of inputs with a recorded genuine defect (see fixes/C02-*.msg); all failures of a class
+// share the key "finding:<name>".  The programs are still generated, run and compared: once the fix is in the tree the
+// class simply stops failing.
+func isPow2Text(c string) bool {
+	c = strings.TrimPrefix(c, "-")
+	u, err := strconv.ParseUint(c, 10, 64)
+	return err == nil && u >= 2 && u&(u-1) == 0
+}
+
 func findingClass(f *Fn) string {
+	if f.Class != "" {
+		return f.Class
+	}
+	nonInt := f.K != nil && (f.K.Cat == cFloat || f.K.Cat == cComplex)
+	place := f.Op != "multi" && f.Op != "seq" && !isVarPlace(f.Place) && f.Place != "blank"
+	switch {
+	case f.Op == "multi":
+		switch {
+		case f.Place == "blank-first", f.Place == "blank-second", f.Place == "blank-both", f.Place == "blank-both-calls",
+			f.Place == "toplevel-3", f.Place == "toplevel-4":
+			return "finding:assign2-blank"
+		}
+	case f.Op == "seq":
+		if f.seqClass != "" {
+			return f.seqClass
+		}
+	case place && (f.Op == "^=" || f.Op == "<<=" || f.Op == ">>="):
+		return "finding:place-xor-shift-dispatch"
+	case f.Rhs == "C" && nonInt && (f.Op == "+=" || f.Op == "*=" || f.Op == "/=") &&
+		(f.CText == "0" || f.CText == "1" || f.CText == "-1" || f.CText == "(0+0i)"):
+		return "finding:const-shortcut-nonint"
+	case f.Rhs == "C" && f.Op == "/=" && f.K.Cat == cUint && f.K.Bits == 64 && f.CText == "18446744073709551615" && isVarPlace(f.Place):
+		return "finding:quo-maxuint64"
+	case f.Rhs == "C" && f.Op == "/=" && f.K.IsInt() && strings.HasPrefix(f.Place, "boxed") && isPow2Text(f.CText):
+		return "finding:quopow2-varbind"
+	case f.Rhs == "C" && f.Place == "mapmiss" && f.Op == "/=" && f.K.IsInt() && isPow2Text(f.CText) && !strings.HasPrefix(f.CText, "-"):
+		return "finding:map-missing-key-panic"
+	case f.Rhs == "C" && f.Place == "mapmiss" && f.K.IsInt():
+		noop := map[string][]string{"+=": {"0"}, "-=": {"0"}, "*=": {"1"}, "/=": {"1"}, "|=": {"0"}, "^=": {"0"}, "&^=": {"0"}, "&=": {"-1", "18446744073709551615"}, "<<=": {"0"}, ">>=": {"0"}}
+		for _, c := range noop[f.Op] {
+			if f.CText == c {
+				return "finding:map-noop-store"
+			}
+		}
+	case f.Rhs == "C" && f.Place == "mapmiss" && f.K.Cat == cString && f.Op == "+=" && f.CText == `""`:
+		return "finding:map-noop-store"
+	}
 	return ""
 }
 
@@ -584,7 +632,7 @@ func (g *Gen) multi() {
 			return "func(a, v " + K + ") string { var lg string; m := map[string]" + K + "{\"a\": a, \"b\": v}; k := func(s string) string { lg += s; return s }; m[k(\"a\")], m[k(\"b\")] = m[k(\"b\")], m[k(\"a\")]; return show(m[\"a\"], m[\"b\"], len(m), lg) }"
 		}, all},
 		{"swap-fields", func(K, n0, n1 string) string {
-			return "func(a, v " + K + ") string { var lg string; var s struct{ A, B " + K + " }; s.A, s.B = a, v; p := &s; p.A, s.B = s.B, p.A; return show(s.A, s.B, lg) }"
+			return "func(a, v " + K + ") string { var lg string; type S struct{ A, B " + K + " }; var s S; s.A, s.B = a, v; p := &s; p.A, s.B = s.B, p.A; return show(s.A, s.B, lg) }"
 		}, all},
 		{"swap-ptrs", func(K, n0, n1 string) string {
 			return "func(a, v " + K + ") string { var lg string; x, y := a, v; p, q := &x, &y; *p, *q = *q, *p; return show(x, y, lg) }"
@@ -765,10 +813,16 @@ func (g *Gen) sequences() {
 		sb.WriteString(`return show(x, y, c, u, f, s, sl[0], sl[1], sl[2], m["k"], m["n"], len(m), st.A, st.B, g0_` + K + `, x0_` + K + `, lg) }`)
 		f := &Fn{Mode: "F", Op: "seq", K: k, KV: k, Place: fmt.Sprintf("seq%d", i), Rhs: "V", Params: []*Kind{k, k}}
 		f.Src = sb.String()
+		if seqPlaceXorShift.MatchString(f.Src) {
+			f.seqClass = "finding:place-xor-shift-dispatch"
+		}
 		f.Rows = g.rows2(k, k, "seq", f.Key(-1), g.nrows(4, 8))
 		g.add(f)
 	}
 }
+
+// a sequence statement  <non-variable place> ^= | <<= | >>=  (class finding:place-xor-shift-dispatch)
+var seqPlaceXorShift = regexp.MustCompile(`(sl\[[^;]*\]|m\[[^;]*\]|st\.[AB]|\*p|\*pf\(\)) (\^=|<<=|>>=) `)
 
 func sortedKeys(m map[string]int) []string {
 	var ks []string
